@@ -7,7 +7,6 @@ VERIF = os.path.dirname(os.path.dirname(os.path.abspath(__file__)))
 
 NA = {
     "C01": "agreement with an external reference implementation (the Python clvm package) on all programs: no structural clause of this repository implies it and the reference is not installed; the table-level facts that are statically checkable are decided under C10/C26/C30 instead",
-    "C21": "a bijection/minimality statement about an arithmetic function over 2^56 integers: it quantifies over runtime values; bit-precise case analysis is a solver's job (a different technique family), and the only structural facts are too weak to be called a verdict",
     "C32": "cryptographic correctness against independent implementations lives in dependency crates (chia-bls, k256, p256, sha2/sha3) and in number theory; nothing in this repository's code shape decides it",
 }
 PENDING = "static check not built yet in this session (see DESIGN.md section 4 for the designed rules); not claimed until the rule fires on its seeded breakage and is silent on the unchanged tree"
@@ -88,10 +87,10 @@ CLAIMS = {
             "DESIGN.md 4/C19"),
     "C20": ("in-bounds verifier of C25 over the serde_2026 decoders and the length probe, constant relation evaluated over extracted decoder caps and the magic bytes, switch-table extraction of the instruction numbering on both sides, sequence/set comparison of header validations between decoder and probe, origin tracking of allocation sizes, accept-condition normalisation of the varint range tests",
             "Decides: the classic prefix decoder rejects the magic by its own caps; writer and reader agree on 0 / +1 / -1 / i+2 / -(j+2) and on the operand order of both cons opcodes, with bounds-checked tables; decoder and probe validate the same varints with the same calls and reject the same header values, the probe reports magic + cursor and bounds its skips; every allocation size is constant or bounded by max_atom_len; write_varint and the strict size function accept the same ranges over 7+7k bits. Not round-trip, nor totality beyond explicit sites.",
-            "Trusts rustc's MIR. The probe/decoder comparison identifies header quantities by local names with one alias (atom_len = length): a rename on one side is reported.",
+            "Trusts rustc's MIR. The probe/decoder comparison identifies a header quantity by the ordinal of the read_varint call it derives from (field-sensitively through tuples), never by the name of the local that holds it; the varint range rule is C21's.",
             "DESIGN.md 4/C20"),
     "C22": ("argument-sequence rule on every Sha256::update / blob-list hashing site, pop-order vs push-order rule for pair hashes, index-provenance rule for the precomputed table, dominance rule for the stream hasher's slice position, Python ast check",
-            "Decides for all 11 Rust hashing sites and the Python hasher: prefix 01 + atom bytes or 02 + left + right, nothing else; the first hash argument of every pair hash is the left child's (by push/pop order or by name); the precomputed table is correct and indexed only by the value of an inline small integer; the stream hasher slices the body after consuming the prefix. Not SHA-256 itself.",
+            "Decides for all 11 Rust hashing sites and the Python hasher: prefix 01 + atom bytes or 02 + left + right, nothing else; the first hash argument of every pair hash is the left child's (by push/pop order: which pop feeds which argument is read off call-site identities, which child is pushed first off the pair field, never off a local's name); the precomputed table is correct and indexed only by the value of an inline small integer; the stream hasher slices the body after consuming the prefix. Not SHA-256 itself.",
             "Trusts chia_sha2 and Python's hashlib; `intern` delegates to the object cache.",
             "DESIGN.md 4/C22"),
     "C23": ("static cost arithmetic: abstract interpretation of CLVM's cost rules on the fixed ChiaLisp program over an abstract tree, constants extracted from source, coefficient-wise inequalities",
@@ -110,6 +109,10 @@ CLAIMS = {
             "Decides for EVERY write site in the limited serializers that a writer failure of kind OutOfMemory leaves as EvalErr::OutOfMemory, that the limiter fails iff limit < len (strict) and decrements by the written count, and that the entry points return only bytes that passed the limiter built with the caller's limit. Does not decide that the unlimited serialization is what is written (C15/C17).",
             "Trusts rustc's MIR and callee resolution; io::Write implementations other than LimitedWriter are out of scope (Cursor<Vec<u8>> never fails).",
             "DESIGN.md 4/C29"),
+    "C21": ("writer/reader agreement rules over write_varint, varint_size and read_varint with local names removed: read/write call inventory with the slice ranges read and the arrays written (consumed and emitted length = 1 + K), range-table equality of the writer and the strict-size function (accept-condition normal forms, ascending candidate order), layout agreement (first-byte composition, shift amounts, iteration order, two's-complement conversion on both sides), dominance rule for the strict check",
+            "Decides the clauses of the statement that are visible in the shape of the code: the reader consumes exactly the length its prefix declares (1 + K bytes, 8 leading ones rejected) and the writer emits exactly that many for the FIRST K whose range contains the value (shortest encoding); writer and strict-size function use the same range -(1 << (6+7K)) .. (1 << (6+7K)) - 1; both sides agree on the byte layout (prefix | top bits, then big-endian bytes) and on the sign conversion threshold and offset; after assembly the only rejection is strict && varint_size(value) != K + 1, lenient mode returns the value. NOT decided: that these agreeing tables make decode(encode(v)) == v for every 56-bit v (arithmetic on runtime values).",
+            "Partial by nature: the bijection is arithmetic. Trusts rustc's MIR; expected expression shapes are pinned (a behaviour-preserving rewrite of the bit arithmetic, e.g. another way to build the mask, would need the rule's shape extended).",
+            "DESIGN.md 9.1/C21"),
     "C24": ("typestate of the two de-duplication maps in intern_tree_limited: key-provenance rule (atom map keyed by content, pair map keyed by the interned children in order), creation-only-in-Vacant-arm region rule, recorded-once rule, visited-set rule; with C03/R03b (Atom equality and hash go through the bytes)",
             "Decides the structural necessary conditions of maximal de-duplication and of tree preservation: atoms are looked up by content, pairs by their interned children (left, right); a node is created and pushed exactly once and only when its entry is vacant; the created atom has the source bytes, the created pair has the two key values as children; every source node is mapped once and the root is the mapping of the request. Not that the serialization is byte-identical (a value property).",
             "Trusts rustc's MIR and std's HashMap entry API.",
